@@ -2770,6 +2770,14 @@ where
 
             inp.errors.alt = old_alt;
             inp.add_alt_err(&new_alt.pos, new_alt.err);
+        } else {
+            // The parser succeeded: whatever error it left pending (e.g. from a failed optional) is not the mapper's
+            // business, and the error that was pending before must be preserved, exactly as if `map_err` was not here
+            let new_alt = inp.take_alt();
+            inp.errors.alt = old_alt;
+            if let Some(new_alt) = new_alt {
+                inp.add_alt_err(&new_alt.pos, new_alt.err);
+            }
         }
 
         res
